@@ -39,6 +39,8 @@ func (p reply) bytes(fr string, r *Rng) []byte {
 		f[len(f)-1-r.Intn(2)] ^= 1 << uint(r.Intn(8))
 	case 2:
 		f[len(f)-1], f[len(f)-2] = byte(r.U64()), byte(r.U64())
+	case 3:
+		f[len(f)-1], f[len(f)-2] = f[len(f)-2], f[len(f)-1] // high byte first
 	}
 	return f
 }
@@ -102,7 +104,7 @@ func mutate(r *Rng, fr string, p *reply) string {
 			return "longer"
 		case 11:
 			if fr == "r" {
-				p.badCRC = 1 + r.Intn(2)
+				p.badCRC = 1 + r.Intn(3)
 				return "crc"
 			}
 		case 12:
